@@ -182,7 +182,7 @@ row("Rsun", 6.957e8, d.length, cls="astro")
 row("Lsun", 3.828e26, d.power, cls="astro")
 row("Tsun", 5772.0, d.temperature, cls="astro")
 row("Mjup", MSUN / 1047.3486, d.mass, cls="astro")  # Standish 1995 system mass ratio
-row("Mearth", MSUN / 328900.56, d.mass, cls="astro")  # Standish 1995 (Earth+Moon)
+row("Mearth", 5.9722e24, d.mass, cls="astro")  # IAU 2015 nominal terrestrial mass (GM_E / G); the Earth alone
 row("Rjup", 6.9911e7, d.length, cls="astro")  # volumetric mean radius (NASA fact sheet)
 row("Rearth", 6.371008e6, d.length, cls="astro")  # volumetric mean radius
 # --- convention --------------------------------------------------------------------------------------
@@ -226,7 +226,7 @@ CONSTANTS = {
     "Mjup": (MSUN / 1047.3486, d.mass, "astro"),
     "mercury_mass": (MSUN / 6023600.0, d.mass, "astro"),
     "venus_mass": (MSUN / 408523.71, d.mass, "astro"),
-    "Mearth": (MSUN / 328900.56, d.mass, "astro"),
+    "Mearth": (5.9722e24, d.mass, "astro"),  # IAU 2015 nominal terrestrial mass (GM_E / G); NOT the Earth+Moon system
     "mars_mass": (MSUN / 3098708.0, d.mass, "astro"),
     "saturn_mass": (MSUN / 3497.898, d.mass, "astro"),
     "uranus_mass": (MSUN / 22902.98, d.mass, "astro"),
@@ -234,9 +234,10 @@ CONSTANTS = {
     "standard_gravity": (9.80665, d.accel, "exact"),
     "mu_0": (4e-7 * PI, d.force / d.current**2, "codata"),
     "eps_0": (8.8541878128e-12, d.charge**2 / d.force / d.area, "codata"),
-    "R_inf": (10973731.568160, d.ONE / d.length, "codata"),
+    "R_inf": (10973731.568160, d.ONE / d.length, "codata-spectroscopic"),
 }
-CLASS_TOL = {"exact": EXACT, "codata": 2e-4, "astro": 1e-3, "convention": 0.0}
+# codata-spectroscopic: constants known to 1e-11 or better in every CODATA adjustment since 1986 (all adjustments agree to 2e-9)
+CLASS_TOL = {"exact": EXACT, "codata": 2e-4, "astro": 1e-3, "convention": 0.0, "codata-spectroscopic": 1e-8}
 
 
 def table():
